@@ -1,4 +1,4 @@
-import Cppcms.C06.RefineB
+import Cppcms.C06.RefineC
 /-!
 # C06 — property theorems
 
@@ -421,9 +421,25 @@ example : Gen.tcpRouteKeys = ["sid", "sid", "sid"] := by decide
 /-- **The 10 % renewal window** as the source has it (`delta < timeout_val_ * 0.1` with
 `delta = now + timeout_val_ - timeout_in_`): an unchanged renew/browser session is not rewritten while fewer
 than a tenth of its period has passed since `timeout_in_ - timeout_val_`, the instant of the last write. -/
-theorem renewal_window (now T tin : Int) :
-    (Gen.delta now T tin * Gen.renewDen < T * Gen.renewNum) ↔ 10 * (now - (tin - T)) < T := by
-  simp only [Gen.delta, Gen.renewDen, Gen.renewNum]; omega
+theorem renewal_window (now T tin tdef : Int) :
+    (Gen.delta now T tin * Gen.renewDen < Gen.renewBase T tdef * Gen.renewNum) ↔ 10 * (now - (tin - T)) < T := by
+  simp only [Gen.delta, Gen.renewDen, Gen.renewNum, Gen.renewBase]; omega
+
+/-- **The renewal test as the machine computes it.**  `save()` evaluates `delta < timeout_val_ * 0.1` in binary64.
+`doubleLess` (Model.lean) is the exact model of that computation: `delta` and the `int` multiplicand converted exactly,
+the literal as the binary64 number `Gen.renewMant * 2^-Gen.renewShift`, one IEEE multiplication rounded to nearest even.
+For every `int` multiplicand and every integer `delta` it agrees with the exact rational comparison the model uses
+(`delta * 10 < T * 1`) — no rounding artefact anywhere on the range, in particular not at `delta = T/10`. -/
+theorem renew_double_exact (delta T : Int) (hlo : -2 ^ 31 ≤ T) (hhi : T < 2 ^ 31) :
+    doubleLess delta T = decide (delta * Gen.renewDen < T * Gen.renewNum) :=
+  doubleLess_exact delta T hlo hhi
+
+/-- The binary64 value the translator computed for the literal is the double nearest to the rational `1/10`: a 53-bit
+number of the binade `[2^-4, 2^-3)` (spacing `2^-56`) at distance at most half a spacing. -/
+theorem renew_literal_is_nearest_double :
+    Gen.renewShift = 55 ∧ 2 ^ 51 ≤ Gen.renewMant ∧ Gen.renewMant < 2 ^ 52 ∧
+    4 * (Gen.renewDen * (Gen.renewMant : Int) - Gen.renewNum * 2 ^ 55).natAbs ≤ Gen.renewDen.natAbs := by
+  decide
 
 /-! ### Non-vacuity / sanity instances -/
 
@@ -524,6 +540,11 @@ example : ((Jar.empty.applyAll (request (stepCtx exCfg exEnv ⟨[], [], 1000, []
       (request (stepCtx exCfg exEnv ⟨exTok, [[107]], 1001, []⟩)
         (request (stepCtx exCfg exEnv ⟨[], [], 1000, []⟩) ⟨[], []⟩ 0 [.set [107] [118], .expose [107]]).store 1 [.hide [107]]).cookies).exposed) =
     ([([107], [118])], []) := by decide +kernel
+
+-- the renewal test in binary64 at and around the 10 % boundary (also at the top of the `int` range)
+example : [doubleLess 9 100, doubleLess 10 100, doubleLess 2 30, doubleLess 3 30, doubleLess 214748364 2147483647,
+    doubleLess 214748364 2147483640, doubleLess (-1) (-5), doubleLess (-1) (-10)] =
+    [true, false, true, false, true, false, true, false] := by decide +kernel
 
 /-! ### known finding: working values set before `clear()` are used but not persisted
 
